@@ -1,6 +1,7 @@
 (* C10 - Re-linking compiled output is a fixpoint.  Statements only; proofs are in Proofs/Relink.v. *)
 From Coq Require Import List Bool String.
 From PV Require Import Model.Relink Proofs.Relink.
+From PV Require Import Model.JsonNames Proofs.JsonNames.
 Import ListNotations.
 
 (* A reference with a leading dot resolves to exactly the name it spells (if that name is visible), whatever
@@ -42,3 +43,30 @@ Example C10_nonvacuous :
           ([["a"; "b"; "M"]], WType, mkref true ["a"; "b"; "E"]);
           ([], WMessage, mkref true ["a"; "b"; "M"])].
 Proof. vm_compute. reflexivity. Qed.
+
+(* JSON-name validation on the second pass. The fields of a message of a file compiled from source (every field
+   without an explicit json_name carries the default one), validated again without the AST: an error is reported
+   only where the source compilation reported one, whatever the names, the custom names and the JSON compliance
+   of the message. So warning-only conflicts (two default names in a proto2 or LEGACY_BEST_EFFORT message) stay
+   warnings when the output is linked again. *)
+Theorem C10_relink_json_errors_subset : forall compliant fs,
+  Forall compiled fs -> In EErr (validate compliant false fs) -> In EErr (validate compliant true fs).
+Proof. exact relink_json_errors_subset_lemma. Qed.
+Print Assumptions C10_relink_json_errors_subset.
+
+Theorem C10_relink_json_no_new_errors : forall compliant fs,
+  Forall compiled fs -> errors (validate compliant true fs) = 0 -> errors (validate compliant false fs) = 0.
+Proof. exact relink_json_no_new_errors_lemma. Qed.
+Print Assumptions C10_relink_json_no_new_errors.
+
+(* non-vacuity: foo_bar and fooBar in a proto2 message: one warning from source, one warning on the re-link; the
+   same two fields in a JSON-compliant message are an error in both; an explicit json_name equal to the default is
+   custom only while the AST is there *)
+Example C10_nonvacuous_json :
+  let a := mkjf "foo_bar" "fooBar" "fooBar" false in
+  let b := mkjf "fooBar" "fooBar" "fooBar" false in
+  let c := mkjf "x_y" "xY" "xY" true in
+  validate false true [a; b] = [EWarn] /\ validate false false [a; b] = [EWarn] /\
+  validate true true [a; b] = [EErr] /\ validate true false [a; b] = [EErr] /\
+  claim true true c = ("xY", true) /\ claim true false c = ("xY", false).
+Proof. vm_compute. repeat split; reflexivity. Qed.
